@@ -126,6 +126,8 @@ Store ==
           /\ IF Faulty
              THEN \* failed under an injected fault: invisible now, maybe durable
                   /\ vis' = vis /\ dur' = MaybeOp(dur, Ev) /\ UNCHANGED <<viol, bad>>
+             ELSE IF Ev.mayrej
+             THEN UNCHANGED <<vis, dur, viol, bad>>     \* an entry above the documented maximum may be refused (C15)
              ELSE IF \E s \in vis : PreStore(s, Ev.idxs)
              THEN /\ V("StoreRejectedLegal") /\ bad' = TRUE /\ UNCHANGED <<vis, dur>>
              ELSE UNCHANGED <<vis, dur, viol, bad>>
@@ -302,6 +304,13 @@ ObsMetrics ==
      ELSE UNCHANGED <<viol, bad>>
   /\ Same
 
+(* C09: the harness compared the segment files with the README encoding (harness/readmefmt) *)
+ObsFormat ==
+  /\ Live("format")
+  /\ nobs' = nobs + 1
+  /\ IF Ev.ok THEN UNCHANGED <<viol, bad>> ELSE /\ V("FormatMismatch") /\ bad' = TRUE
+  /\ Same
+
 (* events that carry no contract content (notes of the harness) *)
 Note ==
   /\ l <= Len(Trace) /\ ~bad /\ Ev.ev \in {"note", "none"} /\ Adv
@@ -315,7 +324,7 @@ Finish ==
 
 Next == \/ Reset \/ Mark \/ Restore \/ Unmark \/ Skip
         \/ Store \/ Delete \/ SetK \/ Crash \/ Open \/ Close \/ FaultsCleared \/ Panic
-        \/ ObsFirst \/ ObsLast \/ ObsGet \/ ObsGetK \/ ObsDir \/ ObsCreat \/ ObsMetrics \/ Note
+        \/ ObsFirst \/ ObsLast \/ ObsGet \/ ObsGetK \/ ObsDir \/ ObsCreat \/ ObsMetrics \/ ObsFormat \/ Note
         \/ Finish
 
 Spec == Init /\ [][Next]_vars
